@@ -500,6 +500,20 @@ func BuildScenario(seed int64, pow bool) (*Scenario, error) {
 	sc.noise()
 	p4 := send(pkt.SendSpec{Src: b, Dst: a, User: u1, Token: tB, Amount: big.NewInt(30), Receiver: pkt.LowerHex(u1.Eth), Call: s.CallTo(a, "reverter")}, "B->A failing call")
 	relay(p4, "B->A failing call")
+	// a packet whose destination call fails AS A WHOLE (a staking action the packet contract cannot pay for: the EVM part
+	// succeeds, the post-processing hook fails): the error acknowledgement is built by the module, not by the contract
+	if vals := a.App.StakingKeeper.GetAllValidators(a.Ctx()); len(vals) > 0 {
+		if data, err := stakingcontract.StakingContract.ABI.Pack("delegate", vals[0].OperatorAddress, big.NewInt(1_000_000)); err == nil {
+			if p := send(pkt.SendSpec{Src: b, Dst: a, User: u1, Call: pkt.CallSpec{Kind: "hard-failure", Contract: strings.ToLower(stakingcontract.StakingAddress.Hex()), Data: data}}, "B->A call that fails as a whole"); p != nil {
+				// (delivered only: the error acknowledgement of a call-only packet cannot be processed on the source, see 8.4)
+				if o, err := s.HonestRecv(p, rel); err != nil || !o.OK() {
+					sc.fail("B->A call that fails as a whole: receive failed: %v", err)
+				}
+				w.Roll(a)
+				sc.cover("recv-whose-callback-fails-as-a-whole")
+			}
+		}
+	}
 	p5 := send(pkt.SendSpec{Src: b, Dst: a, User: u1, Token: tA, Amount: big.NewInt(1000), Receiver: pkt.LowerHex(u2.Eth)}, "B->A back transfer")
 	relay(p5, "B->A back")
 	p6 := send(pkt.SendSpec{Src: a, Dst: b, User: u1, Token: tB, Amount: big.NewInt(500), Receiver: pkt.LowerHex(u0.Eth)}, "A->B back transfer (burn)")
